@@ -95,7 +95,7 @@ claim("C01",
 claim("C02",
       "Lean theorems KB.Props.C02 / C02Store over KB.Sys: dealt revisions are unique; a request that returned before another began has the smaller "
       "revision (ghost stamps of the monotone counter); per key the applied revisions strictly increase; header >= data for write failure responses, "
-      "Get and List (after fix 2e45001). Correspondence: gated schedules + sequential histories with reads above the committed revision. KB.Props.C02Lag: the per-key history stays strictly increasing, and above every revision the key already has in the store, from ANY well-formed store with an arbitrarily lagging allocator (the local drift / delete / creator guards, each shown necessary by a decided witness); checked against the real code by lagging-allocator scripts (lowrev).",
+      "Get and List (after fix 2e45001). Correspondence: gated schedules + sequential histories with reads above the committed revision. KB.Props.C02Lag: the per-key history stays strictly increasing, and above every revision the key already has in the store, from ANY well-formed store with an arbitrarily lagging allocator (the local drift / delete / creator guards, each shown necessary by a decided witness); checked against the real code by lagging-allocator scripts (lowrev). KB.Props.C18Cas (audited here too): a revision is dealt once at the allocator's own granularity (one atomic instruction per step, refusals of a full window included), tied to tso.go by regenerated shape facts; dynamic cross-check TestTsoCas / TestTsoWindow / TestTsoWindowEdge on the real allocator.",
       TB + "Real time is observed at script granularity in the correspondence runs.",
       "Lean 4 proof (inductive invariants over all schedules) + scheduled differential correspondence", "DESIGN.md §5 C02")
 claim("C06",
@@ -127,7 +127,7 @@ claim("C14",
       "Lean theorems KB.Props.C14 over the lock model (Get/Create/Update of election.go on the shared reference engine): for all schedules of any number "
       "of candidates: update succeeds only if the stored record equals the candidate's last observed bytes; once present the record is never absent and at most "
       "one create succeeds; two candidates with the same observation never both acquire (fresh records); every change of the record is such a step. "
-      "Correspondence: exhaustive enumeration of all step sequences (2 candidates length 6, 3 candidates length 5 on memkv; shorter on badger/tikv) + random + goroutine races.",
+      "Correspondence: exhaustive enumeration of all step sequences (2 candidates length 6, 3 candidates length 5 on memkv; shorter on badger/tikv; a regime in which every update is a RELEASE record) + random + goroutine races; in the random scripts the read-only endpoints of the real leader.NewLeaderElection object that shares each candidate's lock (`info`) are asked between any two steps and are no step of the lock.",
       TB + "client-go's elector itself is not modelled (only its resourcelock.Interface calls); records are compared as bytes (ABA needs byte-identical records).",
       "Lean 4 proof (all schedules of the lock LTS) + exhaustive differential enumeration", "docs/DESIGN-C14.md")
 claim("C17",
